@@ -98,6 +98,7 @@ def run_circular_binseg(
         anomaly_scores[i] = agg_scores[argmax]
         anomaly_starts[i] = anomaly_start_candidates[argmax]
         anomaly_ends[i] = anomaly_end_candidates[argmax]
+        maximizers[i] = anomaly_starts[i], anomaly_ends[i]
 
     anomalies = greedy_anomaly_selection(
         anomaly_scores, anomaly_starts, anomaly_ends, starts, ends, threshold
